@@ -161,6 +161,19 @@ def has_sse(tree):
     return "inner" in tree and has_sse(tree["inner"])
 
 
+def mount_prefixes(tree):
+    out = []
+    if tree["t"] == "subpaths":
+        out += [p for p, _ in tree["mounts"] if p]
+    for key in ("routes", "mounts", "hosts"):
+        if key in tree:
+            for _, sub in tree[key]:
+                out += mount_prefixes(sub)
+    if "inner" in tree:
+        out += mount_prefixes(tree["inner"])
+    return out
+
+
 def has_file_recipe(tree):
     if tree["t"] == "resp" and tree["recipe"]["kind"] == "file":
         return True
@@ -213,6 +226,11 @@ class C04(Prop):
             if t.draw(2):
                 r2["path"], r2["root_path"] = plan["req"]["path"], plan["req"]["root_path"]
             plan["req2"] = r2
+        # a request whose path repeats the mount prefix (/a/a/x under a mount at /a): only the first occurrence is the mount
+        prefixes = mount_prefixes(plan["app"])
+        if prefixes and t.draw(4) == 0:
+            pre = t.choice(prefixes)
+            plan["req"]["path"] = pre + pre + t.choice(["", "/", "/x", "/index.html", "/a.txt"])
         # fault: a served file is removed between the directory application's stat() and the response's open()
         plan["vanish"] = (uses(plan["app"], "files") or uses(plan["app"], "pages") or has_file_recipe(plan["app"])) and t.draw(8) == 0
         return plan
